@@ -242,6 +242,8 @@ func main() {
 		}
 	case "check":
 		os.Exit(checkMain(os.Args[2:]))
+	case "replay":
+		os.Exit(replayMain(os.Args[2:]))
 	default:
 		fatal("unknown command %s", os.Args[1])
 	}
